@@ -178,3 +178,21 @@ def liesel_update_unit(rel, cls):
 
 liesel_update_unit(IFACE, "LieselInterface")
 liesel_update_unit("liesel/model/goose.py", "GooseModel")
+
+
+@unit("C09.log_prob_fn", "C09", ["liesel/goose/kernel.py::ModelMixin.log_prob_fn", "liesel/goose/kernel.py::ModelMixin.position", "liesel/goose/kernel.py::ModelMixin.model.fget"])
+def u_log_prob_fn(ip):
+    """the density handed to blackjax (HMC / NUTS) maps a position to the model log-probability of update_state(position, the given state);
+    `position` extracts exactly the kernel's own keys; a kernel without a model interface is rejected."""
+    c = ip.ctx
+    k = sym_kernel(ip, "NUTS", keys=("b", "a"))
+    ms, pos = z3.Const("ms", U), z3.Const("pos", U)
+    f = ip.call(method(ip, k, "log_prob_fn"), [ms], {})
+    r = ip.call(f, [pos], {})
+    want = ip.call(k.f["_model"].attrs["log_prob"], [ip.call(k.f["_model"].attrs["update_state"], [pos, ms], {})], {})
+    c.oblige("log_prob_of_updated_state", r == want)
+    p = ip.call(method(ip, k, "position"), [ms], {})
+    c.oblige("position_has_own_keys_in_order", list(p) == ["b", "a"])
+    k.f["_model"] = None
+    kind, e = try_call(ip, method(ip, k, "position"), [ms])
+    c.oblige("no_model_rejected", kind == "raise" and e.cls == "RuntimeError")
